@@ -68,10 +68,12 @@ def step(depth: int, tk: int, opi: int, vs: int, i: int, j: int, x: int, y: int,
     post: _
     """
     env = get_env().reset()
+    # partition = (class, handle depth); `depth` parameter is therefore not inspected
     fam, which = PARTS[hlib.PART % len(PARTS)]
+    depth = hlib.PART // len(PARTS)
     j = i + 1  # C01 needs one symbolic index only (slice semantics are C03's)
     tkind = pick(WHICH, tk)
-    if tkind is None or depth < 0 or depth > maxdepth():
+    if tkind is None:
         return finish(False, True)
     if depth == 0 and tkind != which:
         return finish(False, True)
@@ -107,8 +109,11 @@ def step(depth: int, tk: int, opi: int, vs: int, i: int, j: int, x: int, y: int,
     return finish(True, True)
 
 
-PROG_PARTS = [(hlib.FAM["JSON"], "dict"), (hlib.FAM["JSON"], "list"), (hlib.FAM["Redis"], "dict"), (hlib.FAM["Zarr"], "list"),
-              (hlib.FAM["MongoDB"], "dict"), (hlib.FAM["BufferedJSON"], "list"), (hlib.FAM["MemoryBufferedJSONAttr"], "dict"), (hlib.FAM["JSONAttr"], "list")]
+def prog_parts():
+    if hlib.TIER == "thorough":
+        return [(hlib.FAM["JSON"], "dict"), (hlib.FAM["JSON"], "list"), (hlib.FAM["Redis"], "dict"), (hlib.FAM["Zarr"], "list"),
+                (hlib.FAM["MongoDB"], "dict"), (hlib.FAM["BufferedJSON"], "list"), (hlib.FAM["MemoryBufferedJSONAttr"], "dict"), (hlib.FAM["JSONAttr"], "list")]
+    return [(hlib.FAM["JSON"], "dict"), (hlib.FAM["JSON"], "list")]
 
 
 def prog2(tk: int, op1: int, op2: int, vs: int, i: int, x: int, y: int, z: int, v1: Leaf, v2: Leaf) -> bool:
@@ -118,10 +123,12 @@ def prog2(tk: int, op1: int, op2: int, vs: int, i: int, x: int, y: int, z: int, 
     """
     env = get_env().reset()
     # partition = class x kind of the target container
-    fam, which = PROG_PARTS[(hlib.PART // 2) % len(PROG_PARTS)]
+    fam, which = prog_parts()[(hlib.PART // 2) % len(prog_parts())]
     tkind = WHICH[hlib.PART % 2]
     muts = ops.mutators(tkind)
-    o1 = pick(muts, op1)
+    split = hlib.PART // (2 * len(prog_parts()))  # further split by first operation
+    nsplit = max(1, hlib.NPARTS // (2 * len(prog_parts())))
+    o1 = pick(muts[split::nsplit], op1)
     o2 = pick(muts, op2)
     if o1 is None or o2 is None:
         return finish(False, True)
@@ -159,23 +166,24 @@ def prog2(tk: int, op1: int, op2: int, vs: int, i: int, x: int, y: int, z: int, 
 def plan(tier):
     if tier == "quick":
         return [
-            {"fn": "step", "nparts": len(PARTS), "timeout": 300},
-            {"fn": "prog2", "nparts": 4, "timeout": 300},
+            {"fn": "step", "nparts": 3 * len(PARTS), "timeout": 300},
+            {"fn": "prog2", "nparts": 16, "timeout": 300},
         ]
     return [
-        {"fn": "step", "nparts": len(PARTS), "timeout": 1500},
-        {"fn": "prog2", "nparts": 2 * len(PROG_PARTS), "timeout": 1500},
+        {"fn": "step", "nparts": 4 * len(PARTS), "timeout": 1500},
+        {"fn": "prog2", "nparts": 4 * 2 * 8, "timeout": 1500},
     ]
 
 
 def smoke(tier):
     out = []
-    for d in (0, 1, 2):
+    n = 3 * len(PARTS)
+    for part in range(0, n, 2):
         for tk in (0, 1):
-            for opi in (0, 4, 8, 9, 14, 16):
-                out.append(("step", (d, tk, opi, 1, 0, 0, 1, 2, 3, 5, "s")))
-    out.append(("prog2", (0, 1, 8, 1, 0, 1, 2, 3, 5, None)))
-    out.append(("prog2", (1, 4, 10, 2, 0, 1, 2, 3, True, 4)))
+            for opi in (0, 4, 9, 16):
+                out.append(("step", (0, tk, opi, 1, 1, 0, 1, 2, 3, 5, 6), part, n))
+    out.append(("prog2", (0, 1, 8, 1, 0, 1, 2, 3, 5, 6), 0, 16))
+    out.append(("prog2", (0, 2, 10, 0, 1, 1, 2, 3, 7, 4), 7, 16))
     return out
 
 
